@@ -403,7 +403,10 @@ def collect_identity_encoders(crates):
             r = b.raw
             if r.get("impl_trait") == ENC and r.get("name") == "encode" and r["defkind"] == "AssocFn":
                 plumbing = ("core::ops::deref::Deref::deref", "core::convert::AsRef::as_ref", "alloc::vec::Vec::<T, A>::as_slice")
-                calls = [c_ for c_ in b.calls() if callee(c_[1]) not in plumbing]
+                # (the call that defines the returned value; observers such as a log statement or `len()` do not count)
+                OBSERVERS = ("log::", "core::fmt::", "alloc::fmt::", "core::cmp::PartialOrd::", "core::slice::<impl [T]>::len",
+                             "alloc::vec::Vec::<T, A>::len", "core::slice::<impl [T]>::is_empty", "alloc::vec::Vec::<T, A>::is_empty")
+                calls = [c_ for c_ in b.calls() if callee(c_[1]) not in plumbing and not callee(c_[1]).startswith(OBSERVERS)]
                 # (`clone()`, `to_vec()`, `to_owned()`, `Vec::from(..)` of the whole input are the same copy)
                 if len(calls) == 1 and callee(calls[0][1]) in ("core::clone::Clone::clone", "alloc::slice::<impl [T]>::to_vec",
                                                              "alloc::borrow::ToOwned::to_owned", "core::convert::From::from",
